@@ -355,18 +355,6 @@ def walks(tier):
                 prelude = ["recompute", "read_question"] if k % 2 else []
                 out.append(json.dumps({"do": "walk", "pkt": pkt, "sec": sec, "incl": incl, "twice": True, "del_q": False, "prelude": prelude,
                                        "del": [ids[i] for i in D], "max_yields": (n + 2) * (n + 2)}, separators=(",", ":")))
-    # wide sections: 300 records (counters wider than a byte), compressed owners, a few deletion patterns
-    for sec in ("AN", "AR"):
-        q = name("w", "ex") + [0, 1, 0, 1]
-        recs, ids = [], []
-        for i in range(300):
-            ttl = 1000 + i
-            recs += rr(ptr(12) if i % 2 else [1, 97 + i % 26] + ptr(12), 1, ttl, [10, 1, i >> 8, i & 255])
-            ids.append(list(ttl.to_bytes(4, "big")))
-        pkt = hdr(9, 0x8180, 1, 300 if sec == "AN" else 0, 0, 300 if sec == "AR" else 0) + q + recs
-        for D in ([0], [299], [254, 255, 256], list(range(0, 300, 50)), [255], [256, 257]):
-            out.append(json.dumps({"do": "walk", "pkt": pkt, "sec": sec, "incl": sec == "AR", "twice": True, "del_q": False, "prelude": [],
-                                   "del": [ids[i] for i in D], "max_yields": 2000}, separators=(",", ":")))
     # the question section: delete it or not; compressed owners point at it
     for b in base_packets()[:6]:
         for dq in (False, True):
